@@ -378,6 +378,10 @@ func (db *SingleBucketBackend) PutObject(
 	objectFilePath := filepath.FromSlash(objectName)
 	objectDir := filepath.Dir(objectFilePath)
 
+	if err := checkKeyPath(db.fs, ".", objectName); err != nil {
+		return result, err
+	}
+
 	if objectDir != "." {
 		if err := db.fs.MkdirAll(objectDir, 0777); err != nil {
 			return result, err
@@ -488,6 +492,11 @@ func (db *SingleBucketBackend) DeleteObject(bucketName, objectName string) (resu
 func (db *SingleBucketBackend) deleteObjectLocked(bucketName, objectName string) error {
 	if !validObjectName(objectName) {
 		// Such a key cannot have been stored, so there is nothing to delete:
+		return nil
+	}
+
+	if stat, err := db.fs.Stat(filepath.FromSlash(objectName)); err == nil && stat.IsDir() {
+		// A directory is not an object; the keys below it are not this key:
 		return nil
 	}
 
